@@ -810,6 +810,8 @@ def bind_args(fn: FuncInfo, args: Tuple[Term, ...], kwargs=()) -> Dict[str, Term
     a = fn.node.args
     names = [x.arg for x in a.posonlyargs + a.args]
     out = {}
+    if fn.kind == "classmethod" and fn.cls is not None and len(args) == len(names) - 1:
+        args = (("global", fn.cls.qual),) + tuple(args)      # Class.method(...) called through the class
     for n, v in zip(names, args):
         out[n] = v
     for k, v in kwargs:
